@@ -155,6 +155,17 @@ fn jj_dir_ignored(root: &Path, base: &Arc<GitIgnoreFile>, path: &str) -> bool {
 }
 
 fn git_check(root: &Path, excludes: &Path, paths: &[String]) -> Option<Vec<bool>> {
+    // a loaded machine occasionally fails to spawn / times out: retry before giving up
+    for attempt in 0..4 {
+        if let Some(r) = git_check_once(root, excludes, paths) {
+            return Some(r);
+        }
+        std::thread::sleep(std::time::Duration::from_millis(200 * (attempt + 1)));
+    }
+    None
+}
+
+fn git_check_once(root: &Path, excludes: &Path, paths: &[String]) -> Option<Vec<bool>> {
     // paths as arguments: `--stdin` mode of git 2.39 is ~10x slower per invocation
     let out = Command::new("timeout")
         .arg("60")
